@@ -44,6 +44,8 @@ FLOORS["quick"].update({'slow_path_runs': 16})
 FLOORS["thorough"].update({'slow_path_runs': 100})
 FLOORS["quick"].update({'large_flow_id_or_rational_rtt_runs': 24})
 FLOORS["thorough"].update({'large_flow_id_or_rational_rtt_runs': 200})
+FLOORS["quick"].update({'sink_prefixes_beyond_4GiB': 8, 'tiny_rtt_estimate_runs': 8})
+FLOORS["thorough"].update({'sink_prefixes_beyond_4GiB': 16, 'tiny_rtt_estimate_runs': 60})
 MSS = 512
 
 
